@@ -354,6 +354,7 @@ class Fn:
         self.file = mod.rel
         self.name = node.name
         self._cfg = None
+        node._fn = self           # back link for cfg.same(): closed forms of expressions of this function
 
     @property
     def short(self):
